@@ -56,3 +56,13 @@ Definition nb_dot (mul : V -> V -> V) (cols : list (list V)) (b : list V) (nrows
   map (fun row => fold_left (fun acc cb => add o acc (mul (get (zero o) (fst cb) row) (snd cb))) (combine cols b) (zero o))
       (seq 0 nrows).
 End Nanops.
+
+(* what nan_reduce above encodes of nanops.reduce_1d's dispatch: counts and every "sum" reducer start from 0 and
+   their chunk results are summed; every other reducer (min, max, first, ...) starts from the first non-null element
+   and its chunk results are reduced with the same reducer.  Regenerated table: Gen/TablesGen.gen_nanops_dispatch. *)
+From Coq Require Import String.
+Open Scope string_scope.
+Definition nanops_dispatch : list (string * string * string * string) :=
+  [("is_count", "True", "int(0)", "'sum'");
+   ("'sum' in reduce_func_name", "skipna", "0", "'sum'");
+   ("else", "skipna", "None", "reduce_func_name")].
